@@ -80,6 +80,10 @@ CHECKS = {
   text="Constant folding proves that the preparation table prepares the density matrices the estimators assume (C e e^dagger C^dagger = RHO[s]), that RHO[P+-] = (I +- P)/2, that the linear-inversion inputs are informationally complete and the input lists agree; role typing of tensor factors decides whether reference Choi matrix and estimators use one factor order - they do not (known finding F9, listed); experiment circuits are preparation / process / measurement on fresh circuits and the base circuit is never mutated. Conjugation conventions for complex gates, MLE convergence / CPTP projection and the gate-fidelity formula are NOT decided.",
   note="Trusted: numpy flatten row-major, kron major index = first factor; C13 for gate meanings. F9 is suppressed only for the listed construct.",
   tech=TECH + "constant folding of tables, determinant of folded vectorisations, role typing of Kronecker factors", ref="DESIGN.md §3 R-K, K-order; §4 C16"),
+ "C06": dict(
+  text="Polynomial normal forms over (brightness, sqrt(indistinguishability), p1) prove for every parameter value that the single-photon outcome table is normalised, reduces to the ideal source at (1,1,1), that each coefficient sits with the right label list (entries with the shared label vanish at zero indistinguishability, fresh-label entries vanish for a perfectly indistinguishable / pure source) and that splitting by distinguishability creates no mass; structural rules decide the fresh-label allocator (two per photon, advanced by two, restarted above 0) and that every store into a distribution in the source model and the annotated-state convolution accumulates (label canonicalisation and output merging are many-to-one); validators accept exactly [0,1] and (0.5,1]. Mixture semantics, g2, HOM visibility, normalisation under loss and purity_to_prob are NOT decided.",
+  note="Trusted: purity_to_prob treated as a free parameter p1 in [0,1].",
+  tech=TECH + "polynomial normalisation of straight-line arithmetic (identity for all parameter values) + specialisations, store-idiom classification, comparison normal form", ref="DESIGN.md §3 K-poly, R-G, R-M5; §4 C06"),
 }
 NA = {}
 
